@@ -300,6 +300,25 @@ fn construct_all(bs: &[u8], rep: &mut Report) -> Option<ByteString> {
         )+};
     }
     arr!(0 1 2 3 4 5 6 7 8 9 10 11 12 13 14 15 16 17 18 19 20 21 22 23 24 25 26 27 28 29 30 31 32);
+    // serde: deserialising is a constructor too — from raw bytes (`BytesDeserializer`, `ByteBufDeserializer`) and from a
+    // JSON string literal given as bytes (only when the bytes need no JSON escaping): Ok exactly for valid UTF-8
+    {
+        use serde::de::{value, Deserialize, IntoDeserializer};
+        let d: value::BytesDeserializer<'_, value::Error> = value::BytesDeserializer::new(bs);
+        results.push(("serde BytesDeserializer", ByteString::deserialize(d).ok()));
+        let d: value::SeqDeserializer<std::vec::IntoIter<u8>, value::Error> = bs.to_vec().into_deserializer();
+        // (a sequence of u8 is not a string: must be rejected whatever the bytes — checked separately below)
+        let seq = ByteString::deserialize(d).ok();
+        if let Some(b) = &seq {
+            rep.t3("C20", &format!("deserialising a SEQUENCE of bytes {} as ByteString succeeded ({})", hex(bs), hex(b.as_bytes())));
+        }
+        if !bs.iter().any(|b| *b == b'"' || *b == b'\\' || *b < 0x20) {
+            let mut js = vec![b'"'];
+            js.extend_from_slice(bs);
+            js.push(b'"');
+            results.push(("serde_json::from_slice", serde_json::from_slice::<ByteString>(&js).ok()));
+        }
+    }
     for (name, r) in &results {
         if r.is_some() != want {
             rep.t3("C20", &format!("constructor {name} on {} accepted={} but str::from_utf8 ok={}", hex(bs), r.is_some(), want));
